@@ -10,7 +10,10 @@
   every disk content and fault schedule; for `adfSetEntryAccess` / `adfSetEntryComment` (at most one block); and for
   creation — `adfCreateEntry`, `adfCreateFile`, `adfCreateDir` (volumes without directory cache): one link write (the
   directory block where its self pointer says, or the chain's last entry — a block of the disk — with only its link word
-  replaced), then one write to a block the bitmap had free when the call began, then a bitmap update; nothing else.
+  replaced), then one write to a block the bitmap had free when the call began, then a bitmap update; nothing else;
+  for `adfRenameEntry` (rename and move: chain predecessor, source directory, the entry, destination chain tail,
+  destination directory — in this order, each at most once); for `adfFileFlush` and `adfFileCreateNextBlock` (the
+  handle's own extension block, data buffer and header, then the bitmap).
   For the other operations it is decided on the real code by classifying every
   device write of every operation against the independent decoder's ownership map (tools/props/C18.py), the model being
   tied to those writes trace-exactly.  (MANIFEST: partial.)
@@ -18,6 +21,9 @@
 import AdfProofs.BitmapOrder
 import AdfProofs.WriteSetLemmas
 import AdfProofs.CreateWriteSet
+import AdfProofs.FlushWriteSet
+import AdfProofs.NextBlockWriteSet
+import AdfProofs.RenameWriteSet
 namespace Adf.C18
 open Adf
 
@@ -161,5 +167,34 @@ theorem C18_create_dir_write_set (c : Cfg) (v nParent : Nat) (name : Bytes) (s :
     Post AnyFault c (createDir v nParent name) s (fun _ s' => ∃ W, writesOf s'.trace = W ++ writesOf s.trace ∧
       CreateWrites c s.disk v (blkOfBytes ((s.sector (vsect c v nParent)).take 512)) (s.mem.vol v).bitmapTable W) :=
   createDir_write_set c v nParent name s hnc
+
+/-- **write set of `adfFileFlush`** (volumes without directory cache; every handle state, disk content, fault schedule): at
+    most the handle's current extension block (where it says it lives), its data buffer (to the block the handle
+    designates), its header (to its own sector), then a bitmap update — nothing else, so closing or flushing a file cannot
+    touch a block of another file -/
+theorem C18_flush_write_set (c : Cfg) (h : FileH) (s : St) (hwf : BlkWF h.hdr)
+    (hnc : isDIRCACHE (c.vol h.vol).dosType = false) :
+    Post AnyFault c (fileFlush h) s (fun _ s' => ∃ W, writesOf s'.trace = W ++ writesOf s.trace ∧ FlushWrites c h W) :=
+  fileFlush_write_set c h s hwf hnc
+
+/-- **write set of `adfFileCreateNextBlock`** (the step of `adfFileWrite` that moves to a new data block; every handle
+    state, disk content, volume state, fault schedule, all flavours): at most one extension block rewritten where it says it
+    lives and at most one write of the finished data buffer to the block the handle designated — no header, no bitmap, no
+    block of another file; on FFS volumes the data written is the handle's buffer as it is -/
+theorem C18_next_block_write_set (c : Cfg) (h : FileH) (s : St) :
+    Post AnyFault c (fileCreateNextBlock h) s (fun _ s' => ∃ Wdat Wext, writesOf s'.trace = Wdat ++ Wext ++ writesOf s.trace ∧
+      ExtWr c h.vol Wext ∧ DataWr c h Wdat) :=
+  fileCreateNextBlock_write_set c h s
+
+/-- **write set of `adfRenameEntry`** (rename and move, volumes without directory cache; every disk content, volume state
+    and fault schedule): nothing, or — with `nSect` the block the library's own lookup finds for the old name and `prevSect`
+    its chain predecessor — in this order, each at most once: the predecessor (only its link word replaced), the source
+    directory block, the entry's own block, the last entry of the destination chain (written where it says it lives, only
+    its link replaced), the destination directory block.  No other block is written, wherever the call is interrupted. -/
+theorem C18_rename_write_set (c : Cfg) (v pSect nPSect : Nat) (oldName newName : Bytes) (s : St)
+    (hnc : isDIRCACHE (c.vol v).dosType = false) :
+    Post AnyFault c (renameEntry v pSect oldName nPSect newName) s (fun _ s' =>
+      ∃ W, writesOf s'.trace = W ++ writesOf s.trace ∧ RenameWrites c v pSect nPSect oldName s W) :=
+  renameEntry_write_set c v pSect nPSect oldName newName s hnc
 
 end Adf.C18
